@@ -14,11 +14,13 @@ import math
 from ..statemon import Reach
 
 RULE = ('row cases: one (reaction row, environment, exposure, mass, rest-time list) per case, all 513 rows on a '
-        'stratified 24-point grid plus log-uniform random points; the numbers are handed over as Python float / int, '
+        'stratified 24-point grid plus log-uniform random points (thermal/fast ratio: 0, 0.02, 0.5, 0.8, 1 and 50 '
+        'on the grid of every fast row; 0, those values or log-uniform over 1e-3..1e3 - fast flux above as well as '
+        'below the thermal flux - on random points, relation and sample cases); the numbers are handed over as Python float / int, '
         'numpy float64 / float32 / int64 / int32 scalars (every row meets every fluence decade 1e2..1e16 once as '
         'float, once as Python int and once as numpy int64) and the rest times as list / tuple / numpy array, the '
         'reference is evaluated at exactly the value passed; distinct = distinct (row index, branch taken, '
-        'decade of fluence, decade of exposure, Cd-ratio class, fast-ratio class) whose reference activity is above '
+        'decade of fluence, decade of exposure, Cd-ratio class, fast-ratio class 0 / below 1 / from 1) whose reference activity is above '
         'the 1e-300 floor (a compared, non-zero chain solution); relation cases: distinct (isotope, relation) pairs '
         'evaluated on a non-zero activity; sample cases: distinct (set of atoms, abundance function) with at least '
         'one activated product; half of the sample cases carry a history: one or two other Sample objects calculated '
@@ -72,6 +74,8 @@ CD_GRID = [0, 0.5, 1, 20, 70]
 M_GRID = [1e-6, 1e-3, 1.0, 1e3]
 REST_GRID = [[0], [0, 1, 24, 360], [0, 1e5], [0.01, 100], [5, 2, 0]]
 GRID_POINTS = 24
+FAST_GRID = {5: 0, 1: 0.5, 3: 0.02, 8: 0.8, 10: 1.0}     # grid point (mod 12) -> fast ratio of a fast row, else 50
+FAST_VALUES = (0.02, 0.5, 0.8, 1.0)
 
 
 # ----------------------------------------------------------------------------
@@ -377,7 +381,8 @@ def _grid_point(row, j):
     exposure = E_GRID[(j // 8) * 2 + ((i + j) % 2)]
     cd = CD_GRID[(j + i) % 5]
     if row.fast:
-        fr = 0 if j % 12 == 5 else 50
+        # fast ratio 0 (row omitted), below 1 (fast flux above the thermal flux), exactly 1, above 1
+        fr = FAST_GRID.get(j % 12, 50)
     else:
         fr = (0, 50)[(j + i) % 2]
     return _grid_forms(_env_case(fluence, cd, fr, exposure, M_GRID[(j + j // 4) % 4], REST_GRID[(j + i) % 5]), i, j)
@@ -393,7 +398,14 @@ def _random_env(rng, fast_row=False):
         cd = 1
     else:
         cd = 10 ** rng.uniform(0, 2.5)
-    fr = 0 if rng.random() < (0.1 if fast_row else 0.4) else 10 ** rng.uniform(0, 3)
+    # thermal/fast ratio: 0 (no fast flux), else anywhere in [1e-3, 1e3] - below 1 the fast flux exceeds the thermal
+    # flux - with weight on the values next to and at 1
+    if rng.random() < (0.1 if fast_row else 0.4):
+        fr = 0
+    elif rng.random() < 0.2:
+        fr = rng.choice(FAST_VALUES)
+    else:
+        fr = 10 ** rng.uniform(-3, 3)
     u = rng.random()
     if u < 0.5:
         rest = [0, 10 ** rng.uniform(-2, 5)]
@@ -405,7 +417,7 @@ def _random_env(rng, fast_row=False):
     if rng.random() < 0.25:
         # the environment is built with other settings first and its public attributes are assigned
         # afterwards (a beam-line description that is edited before the calculation)
-        case['env_init'] = [10 ** rng.uniform(2, 16), rng.choice([0, 0.5, 1, 4, 30]), rng.choice([0, 0, 10, 50])]
+        case['env_init'] = [10 ** rng.uniform(2, 16), rng.choice([0, 0.5, 1, 4, 30]), rng.choice([0, 0, 10, 50, 0.5])]
     return case
 
 
@@ -646,6 +658,10 @@ def _cd_class(cd):
     return 0 if cd == 0 else (1 if cd < 1 else (2 if cd == 1 else 3))
 
 
+def _fast_class(fr):
+    return 0 if fr == 0 else (1 if fr < 1 else 2)
+
+
 # ----------------------------------------------------------------------------
 # checks
 # ----------------------------------------------------------------------------
@@ -719,6 +735,11 @@ def check_row(ctx, case):
         ctx.count('evaluated.epithermal_term_omitted_cd_below_1')
     if row.fast:
         ctx.count('evaluated.fast_rows')
+        if case['fast_ratio'] < 1:
+            ctx.count('evaluated.fast_rows.fast_ratio_below_1')
+            if row.index not in _state.setdefault('fast_rows_below_1', set()):
+                _state['fast_rows_below_1'].add(row.index)
+                ctx.count('rows.fast.evaluated_at_fast_ratio_below_1')
     nontrivial = False
     if case['fluence'] >= 1e15 and (case.get('forms') or {}).get('fluence') in ('int', 'i64'):
         ctx.count('forms.fluence_top_decade_as_%s' % case['forms']['fluence'])
@@ -754,7 +775,7 @@ def check_row(ctx, case):
     if nontrivial:
         ctx.distinct_case(('row', row.index, br, math.floor(math.log10(case['fluence'])),
                            math.floor(math.log10(case['exposure'])), _cd_class(case['Cd_ratio']),
-                           case['fast_ratio'] != 0))
+                           _fast_class(case['fast_ratio'])))
     if row.index not in _state['rows_done']:
         _state['rows_done'].add(row.index)
         ctx.count('rows.evaluated_against_reference')
@@ -1114,6 +1135,8 @@ def finish(ctx):
         ctx.require('evaluated.branch.' + br, 1, why + ' must have been compared with their chain solution')
     ctx.require('rows.evaluated_against_reference', len(_state['T'].rows),
                 'every reaction row of activation.dat must be compared with its chain solution')
+    ctx.require('rows.fast.evaluated_at_fast_ratio_below_1', sum(1 for r in _state['T'].rows if r.fast),
+                'every fast reaction row must be compared with its chain solution at a fast ratio between 0 and 1')
     ctx.require('postcondition.activity.calls', 1, 'the postcondition on activation.activity must have been evaluated')
     ctx.require('reach.Sample._accumulate', 1, 'Sample workloads must reach the accumulation')
     ctx.require('sample.reread', 1, 'earlier Sample objects must have been re-read after a later calculation')
